@@ -8,14 +8,14 @@ set_option linter.unusedVariables false
 namespace Tbox.C16
 
 section
-variable {Sub : Type} {I : Sub → Prop} {ops : SubOps Sub}
+variable {Sub : Type} {I : Sub → Prop} {ops : SubOps Ctx Sub}
 
 theorem rejected_here_noncall (k : Kind) (h : match k with | .call .. => False | .unmodelled => False | _ => True) :
     Rejected (here k) := by
   cases k <;> simp_all [Rejected, here]
 
 @[simp] theorem findState_rt {R R' : Type} (m : MachOf R Sub) (r : R') (sid : StateId) :
-    MachOf.findState ({ init := m.init, states := m.states, cb := m.cb, rt := r } : MachOf R' Sub) sid
+    MachOf.findState ({ mid := m.mid, init := m.init, states := m.states, cb := m.cb, rt := r } : MachOf R' Sub) sid
       = (m.findState sid) := rfl
 
 theorem startReject_ok {rt : Rt} (h : OKrt rt) : startReject rt = if rt.running then some false else none := by
@@ -25,8 +25,8 @@ theorem stopReject_ok {rt : Rt} (h : OKrt rt) : stopReject rt = if rt.running th
 theorem runReject_ok {rt : Rt} (h : OKrt rt) : runReject rt = if rt.running then none else some false := by
   simp [runReject, h.2.2]; cases rt.running <;> simp
 
-theorem start_inv (hs : SubInv I ops) (m : M Sub) (hm : InvL I ops m) :
-    InvL I ops (start ops m).1 ∧ AllRejected (start ops m).2.2 := by
+theorem start_inv (hs : SubInv I ops) (ctx : Ctx) (hctx : AllBusy ctx) (m : M Sub) (hm : InvL I ops m) :
+    InvL I ops (start ops ctx m).1 ∧ AllRejected (start ops ctx m).2.2 := by
   unfold start
   rw [startReject_ok hm.1]
   by_cases hr : m.rt.running = true
@@ -42,9 +42,11 @@ theorem start_inv (hs : SubInv I ops) (m : M Sub) (hm : InvL I ops m) :
     | some st =>
       simp only []
       have hid := findState_id _ _ _ hf
-      have hp : AllRejected (probe (.enter st.id 0) st.enter
-          { running := true, curr := some st.id, last := m.rt.last, next := m.rt.next, cbLevel := m.rt.cbLevel + 1 }) :=
-        probe_rejected _ _ _ (fun b => by simp [Rejected, here]) rfl (by simp)
+      have hbusy : Busy { running := true, curr := some st.id, last := m.rt.last, next := m.rt.next, cbLevel := m.rt.cbLevel + 1 } :=
+        ⟨rfl, by simp⟩
+      have hp : AllRejected (probe (.enter st.id ev0) st.enter m.mid
+          { running := true, curr := some st.id, last := m.rt.last, next := m.rt.next, cbLevel := m.rt.cbLevel + 1 } ctx) :=
+        probe_rejected _ _ _ _ _ (fun b => by simp [Rejected, here]) hbusy hctx
       have hbase : InvL I ops { m with rt :=
           { running := true, curr := some st.id, last := m.rt.last, next := m.rt.next, cbLevel := m.rt.cbLevel + 1 - 1 } } := by
         refine ⟨⟨rfl, hm.1.2.1, by simp [hm.1.2.2]⟩, ?_⟩
@@ -56,7 +58,7 @@ theorem start_inv (hs : SubInv I ops) (m : M Sub) (hm : InvL I ops m) :
       | some sub =>
         simp only []
         have hI := (hm.2 m.init st sub hf hsb).1
-        have h' := hs.start sub hI
+        have h' := hs.start _ sub (allBusy_cons m.mid hbusy hctx) hI
         refine ⟨invL_setSub hbase h'.1 (fun hne => absurd (by simp [hid]) hne), ?_⟩
         exact allRejected_append.2 ⟨hp, allRejected_lift h'.2⟩
 
@@ -91,16 +93,16 @@ theorem invL_leave {m : M Sub} {c : StateId} (hm : InvL I ops m) (hc : m.rt.curr
   intro sid st x hf hs
   exact ⟨(hm.2 sid st x hf hs).1, fun _ => hall sid st x hf hs⟩
 
-theorem stop_inv (hs : SubInv I ops) (m : M Sub) (hm : InvL I ops m) :
-    InvL I ops (stop true ops m).1 ∧ (stop true ops m).1.rt.running = false ∧ AllRejected (stop true ops m).2 := by
+theorem stop_inv (hs : SubInv I ops) (ctx : Ctx) (hctx : AllBusy ctx) (m : M Sub) (hm : InvL I ops m) :
+    InvL I ops (stop ops ctx m).1 ∧ (stop ops ctx m).1.rt.running = false ∧ AllRejected (stop ops ctx m).2 := by
   unfold stop
   rw [stopReject_ok hm.1]
   by_cases hr : m.rt.running = true
   · simp only [hr, if_true]
     obtain ⟨c, hc⟩ := curr_of_running hm.1 hr
     simp only [hc]
-    have hp : ∀ (rt : Rt), AllRejected (probe (.exit c 0) (m.stateOf c).exit
-        { running := rt.running, curr := rt.curr, last := rt.last, next := rt.next, cbLevel := rt.cbLevel + 1 }) → True := fun _ _ => trivial
+    have hbusy : Busy { running := true, curr := some c, last := m.rt.last, next := m.rt.next, cbLevel := m.rt.cbLevel + 1 } :=
+      ⟨rfl, by simp⟩
     cases hsb : (m.stateOf c).sub with
     | none =>
       simp only []
@@ -110,14 +112,14 @@ theorem stop_inv (hs : SubInv I ops) (m : M Sub) (hm : InvL I ops m) :
       refine ⟨?_, by first | rfl | trivial, ?_⟩
       · exact (invL_leave hm hc hq ⟨false, none, m.rt.last, m.rt.next, m.rt.cbLevel + 1 - 1⟩ ⟨rfl, hm.1.2.1, by simp [hm.1.2.2]⟩).1
       simp only [List.nil_append]
-      exact probe_rejected _ _ _ (fun b => by simp [Rejected, here]) hr (by simp)
+      exact probe_rejected _ _ _ _ _ (fun b => by simp [Rejected, here]) hbusy hctx
     | some sub =>
       simp only []
       have hfind := find_of_stateOf_sub m c sub hsb
       have hI := (hm.2 c _ sub hfind hsb).1
-      have h' := hs.stop sub hI
-      have hm1 : InvL I ops (m.setSub c (ops.stop sub).1) := invL_setSub hm h'.1 (fun _ => h'.2.1)
-      have hq : ∀ st x, (m.setSub c (ops.stop sub).1).findState c = some st → st.sub = some x → ops.isRunning x = false := by
+      have h' := hs.stop _ sub (allBusy_cons m.mid hbusy hctx) hI
+      have hm1 := invL_setSub (c := c) hm h'.1 (fun _ => h'.2.1)
+      have hq : ∀ st x, (m.setSub c (ops.stop ((m.mid, { running := true, curr := some c, last := m.rt.last, next := m.rt.next, cbLevel := m.rt.cbLevel + 1 }) :: ctx) sub).1).findState c = some st → st.sub = some x → ops.isRunning x = false := by
         intro st x hf hs'
         rw [findState_setSub] at hf
         simp only [if_true, hfind, Option.map_some] at hf
@@ -126,22 +128,22 @@ theorem stop_inv (hs : SubInv I ops) (m : M Sub) (hm : InvL I ops m) :
       refine ⟨?_, by first | rfl | trivial, ?_⟩
       · exact (invL_leave hm1 (by simpa using hc) hq ⟨false, none, m.rt.last, m.rt.next, m.rt.cbLevel + 1 - 1⟩ ⟨rfl, hm.1.2.1, by simp [hm.1.2.2]⟩).1
       refine allRejected_append.2 ⟨allRejected_lift h'.2.2, ?_⟩
-      exact probe_rejected _ _ _ (fun b => by simp [Rejected, here]) hr (by simp)
+      exact probe_rejected _ _ _ _ _ (fun b => by simp [Rejected, here]) hbusy hctx
   · simp only [hr, if_false]
     simp only [Bool.not_eq_true] at hr
     exact ⟨hm, hr, allRejected_nil⟩
 
-theorem handlerPhase_rejected (cs : StateDef Sub) (rt : Rt) (e : EventId) (hr : rt.running = true) (hc : rt.cbLevel ≠ 0) :
-    AllRejected (handlerPhase cs rt e).2 := by
+theorem handlerPhase_rejected (cs : StateDef Sub) (self : Nat) (rt : Rt) (ctx : Ctx) (e : Event) (hb : Busy rt) (hctx : AllBusy ctx) :
+    AllRejected (handlerPhase cs self rt ctx e).2 := by
   unfold handlerPhase
   split
-  · exact allRejected_cons.2 ⟨by simp [Rejected, here], runScript_rejected _ _ hr hc⟩
+  · exact allRejected_cons.2 ⟨by simp [Rejected, here], runScript_rejected _ _ _ _ hb hctx⟩
   · split
-    · exact allRejected_cons.2 ⟨by simp [Rejected, here], runScript_rejected _ _ hr hc⟩
+    · exact allRejected_cons.2 ⟨by simp [Rejected, here], runScript_rejected _ _ _ _ hb hctx⟩
     · exact allRejected_nil
 
-theorem routeScan_rejected (sid : StateId) (rt : Rt) (e : EventId) (hr : rt.running = true) (hc : rt.cbLevel ≠ 0)
-    (i : Nat) (rs : List Route) : AllRejected (routeScan sid rt e i rs).2 := by
+theorem routeScan_rejected (sid : StateId) (self : Nat) (rt : Rt) (ctx : Ctx) (e : Event) (hb : Busy rt) (hctx : AllBusy ctx)
+    (i : Nat) (rs : List Route) : AllRejected (routeScan sid self rt ctx e i rs).2 := by
   induction rs generalizing i with
   | nil => exact allRejected_nil
   | cons r rs ih =>
@@ -151,8 +153,8 @@ theorem routeScan_rejected (sid : StateId) (rt : Rt) (e : EventId) (hr : rt.runn
     · split
       · exact allRejected_nil
       · rename_i g hg
-        have ht : AllRejected (here (.guard sid i e (g.eval e)) :: runScript rt g.script) :=
-          allRejected_cons.2 ⟨by simp [Rejected, here], runScript_rejected _ _ hr hc⟩
+        have ht : AllRejected (here (.guard sid i e (g.eval e)) :: runScript self rt ctx g.script) :=
+          allRejected_cons.2 ⟨by simp [Rejected, here], runScript_rejected _ _ _ _ hb hctx⟩
         split
         · exact ht
         · exact allRejected_append.2 ⟨ht, ih _⟩
@@ -172,12 +174,12 @@ theorem resolve_sub {R : Type} (m : MachOf R Sub) (id : StateId) (ts : StateDef 
     · cases h
 
 /-- `transition` from the current state `c` whose sub-machine (if any) is not running -/
-theorem transition_inv (hs : SubInv I ops) (m : M Sub) (hm : InvL I ops m) (c : StateId)
+theorem transition_inv (hs : SubInv I ops) (ctx : Ctx) (hctx : AllBusy ctx) (m : M Sub) (hm : InvL I ops m) (c : StateId)
     (hr : m.rt.running = true) (hc : m.rt.curr = some c)
     (hq : ∀ st x, m.findState c = some st → st.sub = some x → ops.isRunning x = false)
-    (e : EventId) (nextId : StateId) (ridx : Option Nat) (action : Option Script) :
-    InvL I ops (transition ops m c e nextId ridx action).1 ∧
-      AllRejected (transition ops m c e nextId ridx action).2.2 := by
+    (e : Event) (nextId : StateId) (ridx : Option Nat) (action : Option Script) :
+    InvL I ops (transition ops ctx m c e nextId ridx action).1 ∧
+      AllRejected (transition ops ctx m c e nextId ridx action).2.2 := by
   unfold transition
   cases hres : m.resolve nextId with
   | none =>
@@ -186,12 +188,14 @@ theorem transition_inv (hs : SubInv I ops) (m : M Sub) (hm : InvL I ops m) (c : 
   | some ts =>
     simp only []
     have hlv : m.rt.cbLevel + 1 ≠ 0 := by omega
-    have hT : AllRejected (probe (.exit c e) (m.stateOf c).exit ⟨m.rt.running, m.rt.curr, m.rt.last, some ts.id, m.rt.cbLevel + 1⟩
-        ++ probe (.action c ridx e) action ⟨m.rt.running, none, some c, some ts.id, m.rt.cbLevel + 1⟩
-        ++ probe (.enter ts.id e) ts.enter ⟨m.rt.running, some ts.id, some c, none, m.rt.cbLevel + 1⟩
-        ++ probe (.notify c ts.id e) m.cb ⟨m.rt.running, some ts.id, some c, none, m.rt.cbLevel + 1⟩) := by
+    have hT : AllRejected (probe (.exit c e) (m.stateOf c).exit m.mid ⟨m.rt.running, m.rt.curr, m.rt.last, some ts.id, m.rt.cbLevel + 1⟩ ctx
+        ++ probe (.action c ridx e) action m.mid ⟨m.rt.running, none, some c, some ts.id, m.rt.cbLevel + 1⟩ ctx
+        ++ probe (.enter ts.id e) ts.enter m.mid ⟨m.rt.running, some ts.id, some c, none, m.rt.cbLevel + 1⟩ ctx
+        ++ probe (.notify c ts.id e) m.cb m.mid ⟨m.rt.running, some ts.id, some c, none, m.rt.cbLevel + 1⟩ ctx) := by
       refine allRejected_append.2 ⟨allRejected_append.2 ⟨allRejected_append.2 ⟨?_, ?_⟩, ?_⟩, ?_⟩ <;>
-        exact probe_rejected _ _ _ (fun b => by simp [Rejected, here]) hr hlv
+        exact probe_rejected _ _ _ _ _ (fun b => by simp [Rejected, here]) ⟨hr, hlv⟩ hctx
+    have hdown : AllBusy ((m.mid, (⟨m.rt.running, some ts.id, some c, none, m.rt.cbLevel + 1⟩ : Rt)) :: ctx) :=
+      allBusy_cons m.mid ⟨hr, hlv⟩ hctx
     have hD := invL_leave hm hc hq ⟨m.rt.running, some ts.id, some c, none, m.rt.cbLevel + 1 - 1⟩
       ⟨by simp [hr], rfl, by simp [hm.1.2.2]⟩
     cases hsb : ts.sub with
@@ -200,33 +204,33 @@ theorem transition_inv (hs : SubInv I ops) (m : M Sub) (hm : InvL I ops m) (c : 
       simp only []
       have hfind := resolve_sub m nextId ts sub hres hsb
       have hI := (hm.2 ts.id ts sub hfind hsb).1
-      have h1 := hs.start sub hI
-      have h2 := hs.run (ops.start sub).1 e h1.1
+      have h1 := hs.start _ sub hdown hI
+      have h2 := hs.run _ _ e hdown h1.1
       refine ⟨invL_setSub hD.1 h2.1 (fun hne => absurd rfl hne), ?_⟩
       exact allRejected_append.2 ⟨hT, allRejected_lift (allRejected_append.2 ⟨h1.2, h2.2⟩)⟩
 
-theorem runOwn_inv (hs : SubInv I ops) (m : M Sub) (hm : InvL I ops m) (c : StateId)
+theorem runOwn_inv (hs : SubInv I ops) (ctx : Ctx) (hctx : AllBusy ctx) (m : M Sub) (hm : InvL I ops m) (c : StateId)
     (hr : m.rt.running = true) (hc : m.rt.curr = some c)
     (hq : ∀ st x, m.findState c = some st → st.sub = some x → ops.isRunning x = false)
-    (e : EventId) :
-    InvL I ops (runOwn ops m c e).1 ∧ AllRejected (runOwn ops m c e).2.2 := by
+    (e : Event) :
+    InvL I ops (runOwn ops ctx m c e).1 ∧ AllRejected (runOwn ops ctx m c e).2.2 := by
   unfold runOwn
   have hlv : m.rt.cbLevel + 1 ≠ 0 := by omega
-  have hH := handlerPhase_rejected (m.stateOf c) ⟨m.rt.running, m.rt.curr, m.rt.last, m.rt.next, m.rt.cbLevel + 1⟩ e hr hlv
-  have hS := routeScan_rejected c ⟨m.rt.running, m.rt.curr, m.rt.last, m.rt.next, m.rt.cbLevel + 1⟩ e hr hlv 0 (m.stateOf c).routes
+  have hH := handlerPhase_rejected (m.stateOf c) m.mid ⟨m.rt.running, m.rt.curr, m.rt.last, m.rt.next, m.rt.cbLevel + 1⟩ ctx e ⟨hr, hlv⟩ hctx
+  have hS := routeScan_rejected c m.mid ⟨m.rt.running, m.rt.curr, m.rt.last, m.rt.next, m.rt.cbLevel + 1⟩ ctx e ⟨hr, hlv⟩ hctx 0 (m.stateOf c).routes
   simp only []
   split
   · split
     · exact ⟨hm, allRejected_append.2 ⟨hH, hS⟩⟩
     · rename_i i r _
-      have hT := transition_inv hs m hm c hr hc hq e r.to (some i) r.action
+      have hT := transition_inv hs ctx hctx m hm c hr hc hq e r.to (some i) r.action
       exact ⟨hT.1, allRejected_append.2 ⟨allRejected_append.2 ⟨hH, hS⟩, hT.2⟩⟩
-  · have hT := transition_inv hs m hm c hr hc hq e
-      (handlerPhase (m.stateOf c) ⟨m.rt.running, m.rt.curr, m.rt.last, m.rt.next, m.rt.cbLevel + 1⟩ e).1 none none
+  · have hT := transition_inv hs ctx hctx m hm c hr hc hq e
+      (handlerPhase (m.stateOf c) m.mid ⟨m.rt.running, m.rt.curr, m.rt.last, m.rt.next, m.rt.cbLevel + 1⟩ ctx e).1 none none
     exact ⟨hT.1, allRejected_append.2 ⟨hH, hT.2⟩⟩
 
-theorem run_inv (hs : SubInv I ops) (m : M Sub) (hm : InvL I ops m) (e : EventId) :
-    InvL I ops (run ops m e).1 ∧ AllRejected (run ops m e).2.2 := by
+theorem run_inv (hs : SubInv I ops) (ctx : Ctx) (hctx : AllBusy ctx) (m : M Sub) (hm : InvL I ops m) (e : Event) :
+    InvL I ops (run ops ctx m e).1 ∧ AllRejected (run ops ctx m e).2.2 := by
   unfold run
   rw [runReject_ok hm.1]
   by_cases hr : m.rt.running = true
@@ -236,47 +240,50 @@ theorem run_inv (hs : SubInv I ops) (m : M Sub) (hm : InvL I ops m) (e : EventId
     cases hsb : (m.stateOf c).sub with
     | none =>
       simp only []
-      refine runOwn_inv hs m hm c hr hc ?_ e
+      refine runOwn_inv hs ctx hctx m hm c hr hc ?_ e
       intro st x hf hs'
       rw [stateOf_of_find m c st hf] at hsb; rw [hsb] at hs'; cases hs'
     | some sub =>
       simp only []
       have hfind := find_of_stateOf_sub m c sub hsb
       have hI := (hm.2 c _ sub hfind hsb).1
-      have h1 := hs.run sub e hI
+      have hdown : AllBusy ((m.mid, (⟨true, some c, m.rt.last, m.rt.next, m.rt.cbLevel + 1⟩ : Rt)) :: ctx) :=
+        allBusy_cons m.mid ⟨rfl, by simp⟩ hctx
+      have h1 := hs.run _ sub e hdown hI
       split
       · exact ⟨invL_setSub hm h1.1 (fun hne => absurd hc hne), allRejected_lift h1.2⟩
-      · have h2 := hs.stop (ops.run sub e).1 h1.1
-        have hm1 : InvL I ops (m.setSub c (ops.stop (ops.run sub e).1).1) := invL_setSub hm h2.1 (fun _ => h2.2.1)
-        have hq : ∀ st x, (m.setSub c (ops.stop (ops.run sub e).1).1).findState c = some st → st.sub = some x →
+      · have h2 := hs.stop _ _ hdown h1.1
+        have hm1 := invL_setSub (c := c) hm h2.1 (fun _ => h2.2.1)
+        have hq : ∀ st x, (m.setSub c (ops.stop ((m.mid, ⟨true, some c, m.rt.last, m.rt.next, m.rt.cbLevel + 1⟩) :: ctx)
+              (ops.run ((m.mid, ⟨true, some c, m.rt.last, m.rt.next, m.rt.cbLevel + 1⟩) :: ctx) sub e).1).1).findState c = some st → st.sub = some x →
             ops.isRunning x = false := by
           intro st x hf hs'
           rw [findState_setSub] at hf
           simp only [if_true, hfind, Option.map_some] at hf
           cases hf
           simp at hs'; subst hs'; exact h2.2.1
-        have h3 := runOwn_inv hs _ hm1 c (by simpa using hr) (by simpa using hc) hq e
+        have h3 := runOwn_inv hs ctx hctx _ hm1 c (by simpa using hr) (by simpa using hc) hq e
         exact ⟨h3.1, allRejected_append.2 ⟨allRejected_lift (allRejected_append.2 ⟨h1.2, h2.2.2⟩), h3.2⟩⟩
   · simp only [hr, if_false]
     exact ⟨hm, allRejected_nil⟩
 
 /-- the level theorem: if the sub-machines keep the invariant, so does the machine -/
-theorem level_subInv (hs : SubInv I ops) : SubInv (InvL I ops) (levelOps true ops) where
-  start := fun m hm => start_inv hs m hm
-  stop := fun m hm => stop_inv hs m hm
-  run := fun m e hm => run_inv hs m hm e
+theorem level_subInv (hs : SubInv I ops) : SubInv (InvL I ops) (levelOps ops) where
+  start := fun ctx m hctx hm => start_inv hs ctx hctx m hm
+  stop := fun ctx m hctx hm => stop_inv hs ctx hctx m hm
+  run := fun ctx m e hctx hm => run_inv hs ctx hctx m hm e
 
 end
 
 /-- the invariant of a machine of nesting depth `n` (all levels) -/
 def Inv : (n : Nat) → Mach n → Prop
   | 0 => InvL (fun (_ : Empty) => True) emptyOps
-  | n + 1 => InvL (Inv n) (subOps true n)
+  | n + 1 => InvL (Inv n) (subOps n)
 
 theorem empty_subInv : SubInv (fun (_ : Empty) => True) emptyOps :=
-  ⟨fun x => x.elim, fun x => x.elim, fun x => x.elim⟩
+  ⟨fun _ x => x.elim, fun _ x => x.elim, fun _ x => x.elim⟩
 
-theorem inv_all : ∀ n, SubInv (Inv n) (subOps true n)
+theorem inv_all : ∀ n, SubInv (Inv n) (subOps n)
   | 0 => level_subInv empty_subInv
   | n + 1 => level_subInv (inv_all n)
 
